@@ -87,6 +87,19 @@ def opsTlbSchema : List (String × Handler) := [
         else "err"
       | none => "bad-op"
     | _ => "bad-op"),
+  -- a declaration of abi/schemas against the checked-in struct: message bodies are generated without the Magic field
+  ("tlbs.absdesc", fun
+    | [sh, ty, _, sm] => match tsSchema sh with
+      | some S =>
+        if S.typeNames.contains ty then
+          let cs := S.ctorsOf ty
+          let cs' := if sm == "1" then cs.map (fun d => { d with tag := ([] : List Bool) }) else cs
+          match sm == "1", cs with
+          | true, [_] => s!"ok {tyTxt S.typeNames (goBody S.typeNames cs')} {fieldNamesTxt cs'}"
+          | _, _ => s!"ok {tyTxt S.typeNames (goBody S.typeNames cs)} {fieldNamesTxt cs}"
+        else "err"
+      | none => "err"
+    | _ => "bad-op"),
   ("tlbs.enc", fun
     | [sh, ty, val] => match tsSchema sh, SExp.parse val with
       | some S, some v =>
